@@ -37,6 +37,10 @@ func init() {
 		"CaptureFormats": func(fr *frame, a []value) (value, bool) { fr.i.ps.captureFmt = a[0].(bool); return nil, true },
 		"FloatsOf":   ndFloatsOf,
 		"From":       ndFrom,
+		"Quiesce":    ndQuiesce,
+		"Yield":      ndYield,
+		"Or":         func(fr *frame, a []value) (value, bool) { return ndBoolFold(fr, a[0], true), true },
+		"And":        func(fr *frame, a []value) (value, bool) { return ndBoolFold(fr, a[0], false), true },
 	} {
 		intrinsics[ndPkg+k] = v
 	}
@@ -80,8 +84,7 @@ func ndIntRange(fr *frame, a []value) (value, bool) {
 
 func ndChoose(fr *frame, a []value) (value, bool) {
 	lo, hi := fr.i.concreteInt(a[1]), fr.i.concreteInt(a[2])
-	v := fr.i.ps.drawRange(cstr(a[0]), types.Int, lo, hi)
-	return int(fr.i.concreteInt(v)), true
+	return int(fr.i.ps.chooseRange(cstr(a[0]), types.Int, lo, hi)), true
 }
 
 func ndFloat64(fr *frame, a []value) (value, bool) {
@@ -272,4 +275,78 @@ func ndFrom(fr *frame, a []value) (value, bool) {
 		out[j] = mkSym(t, types.Uint8)
 	}
 	return normStr(out), true
+}
+
+// Quiesce(): the calling goroutine waits until no other goroutine is runnable.
+func ndQuiesce(fr *frame, a []value) (value, bool) {
+	s := fr.sched()
+	me := s.cur
+	othersIdle := func() bool {
+		for _, g := range s.gs {
+			if g == me {
+				continue
+			}
+			if g.state == gRunnable || (g.state == gBlocked && g.waitFn != nil && g.waitFn()) {
+				return false
+			}
+		}
+		return true
+	}
+	for !othersIdle() {
+		me.state = gBlocked
+		me.waitFn = othersIdle
+		s.block(fr)
+	}
+	return nil, true
+}
+
+// Yield(): a long-running operation of the environment (a compile, a download):
+// any runnable goroutine may run meanwhile; the switch is a schedule choice
+// that does not count against the preemption budget.
+func ndYield(fr *frame, a []value) (value, bool) {
+	ps := fr.i.ps
+	if ps == nil || ps.sched == nil {
+		return nil, true
+	}
+	s := ps.sched
+	var others []*goroutine
+	for _, g := range s.runnable() {
+		if g != s.cur {
+			others = append(others, g)
+		}
+	}
+	if len(others) == 0 {
+		return nil, true
+	}
+	if k := s.pick(len(others) + 1); k > 0 {
+		s.switchTo(others[k-1])
+	}
+	return nil, true
+}
+
+// ndBoolFold builds the disjunction (or conjunction) of a []bool with possibly symbolic elements.
+func ndBoolFold(fr *frame, sl value, isOr bool) value {
+	elems, _ := sl.([]value)
+	tt := fr.i.ps.tt
+	var terms []*Term
+	for _, e := range elems {
+		switch c := e.(type) {
+		case bool:
+			if c == isOr {
+				return isOr // true absorbs an Or, false absorbs an And
+			}
+		case sym:
+			terms = append(terms, c.t)
+		}
+	}
+	if len(terms) == 0 {
+		return !isOr
+	}
+	var t *Term
+	if isOr {
+		t = tt.or(terms...)
+	} else {
+		t = tt.and(terms...)
+	}
+	return mkSym(t, types.Bool)
 }
